@@ -6,3 +6,4 @@ Definition k_flow_reader_read_utf8_string : pfun :=
     SSetAttr "self" "_view" (PSlice (PAttr (PName "self") "_view") (PName "consumed") PNone);
     SReturn (PName "val")
   ] |}.
+Definition k_flow_reader_read_utf8_string_defaults : list (string * pexp) := [("tag", PNone); ("header", PNone); ("hint", PNone)].
